@@ -147,6 +147,9 @@ def run_seq_check(prop, tier, seed, profiles, oracle, n_quick, n_thorough, assum
         small = shrink(text, still)
         r, _ = seqlib.run_scenarios([small])
         tr = list(r.values())[0] if r else ([], [])
+        same = [x for x in oracle(small, tr[0]) if x.split(":")[0] == key] if tr[0] else []
+        if same:
+            f = same[0]      # the message of the shrunk scenario (handles and fds may differ from the original one)
         chk.violation("oracle-%s" % sid,
                       "%s violated on the real code: %s\n# replay: ./check %s --replay <this file>\n%s\n# implementation trace:\n%s\n# model trace:\n%s\n" %
                       (prop, f, prop, small, "\n".join("#   " + seqlib.pretty(l) for l in tr[0]), "\n".join("#   " + l for l in tr[1])))
